@@ -179,3 +179,24 @@ Theorem C10_built_globs_without_repetitions_sound_for_paths_rooted_like_the_glob
   in_variance (ncomp p) v.
 Proof. exact built_rep_free_depth_sound_rooted. Qed.
 Print Assumptions C10_built_globs_without_repetitions_sound_for_paths_rooted_like_the_glob.
+
+From WaxProofs Require Import RuleAdjRep RuleZomRep RepClosed.
+
+(* with repetitions nothing is assumed about adjacency either, when every repetition is written out at least once and its body begins
+   and ends with a leaf: the rule checker guarantees every expansion (C06_built_globs_with_required_repetitions_have_no_adjacent_boundaries) *)
+Theorem C10_built_globs_with_simple_repetitions_sound_unconditionally : forall (orbit : char -> list char), (forall c d, In d (orbit c) -> d <> SEP) ->
+  forall e t r v p,
+  build e = BuildOk t r -> simple_reps t = true -> rep_class t = true ->
+  depth_variance t = Ok v -> depth_closed_variant t = false ->
+  Lang orbit t p -> canonical p = true -> 1 <= ncomp p ->
+  (forall x, Expands t x -> FlatMatch orbit true true x p -> starts_sep p = (match x with a :: _ => leaf_is_rooting a | [] => false end)) ->
+  in_variance (ncomp p) v.
+Proof. exact built_rep_depth_sound_lang. Qed.
+Print Assumptions C10_built_globs_with_simple_repetitions_sound_unconditionally.
+
+(* the premises are satisfiable: s/<*/:1,2>*.{r,m} *)
+Example C10_repetition_unconditional_nonvacuous :
+  let e := [115;47;60;42;47;58;49;44;50;62;42;46;123;114;44;109;125]%N in
+  exists t r, build e = BuildOk t r /\ simple_reps t = true /\ rep_class t = true /\ depth_closed_variant t = false /\
+    depth_variance t = Ok (Var (Bounded (BBoth 3 1))).
+Proof. cbv zeta. do 2 eexists. repeat split; vm_compute; reflexivity. Qed.
